@@ -35,9 +35,11 @@
                                      (not SortRanges) list denoting Points(list)
      RangeCollection.Intersect(A,B)  sorted, disjoint, denotes Points(A) \cap Points(B)
      IntersectRanges(a,b)            denotes the intersection
-     range tree                      a set of pairwise disjoint non-empty ranges; FindConnections(q)
-                                     returns stored ranges only and at least every stored range that
-                                     overlaps q; GetRangeCollection denotes the union, sorted, disjoint
+     range tree                      a set of non-empty, pairwise disjoint, not mergeable ranges (the
+                                     discipline of RemoveOverlappingRanges); FindConnections(q) returns
+                                     stored ranges only and at least every stored range that overlaps q;
+                                     GetRangeCollection denotes the union, sorted, disjoint
+   An operation that returns an error, panics or does not return on these inputs fails the property.
    GoodResult states the acceptance predicate; the replayer (harness/cmd/c46) evaluates it on the
    REAL result with the real cut comparison, against the point sets printed here. *)
 EXTENDS Integers, FiniteSets, Sequences, TLC, Json
